@@ -43,14 +43,14 @@ def apply_edit(rng, db, hd, kind, counter):
             if sum(1 for x in T if x.full_name == t.full_name) > 1:
                 t.name = fresh('tbl')
         elif kind == 't.alias':
-            put(lambda: t, 'alias', rng.choice([None, fresh('al')]), 'table.alias')
+            put(lambda: t, 'alias', rng.choice([None, '', fresh('al')]), 'table.alias')     # '' = cleared, like None
         elif kind == 't.note':
             v = rng.choice(['', 'new note', 'new\nnote'])
             t.note = Note(v)
             if t.note.text != v:
                 lost.append(f'table.note = Note({v!r}) reads back as {t.note.text!r}')
         elif kind == 't.color':
-            put(lambda: t, 'header_color', rng.choice([None, '#abc', '#123456']), 'table.header_color')
+            put(lambda: t, 'header_color', rng.choice([None, '', '#abc', '#123456']), 'table.header_color')
         elif kind == 't.add_column':
             t.add_column(Column(fresh('col'), rng.choice(['int', 'text']), pk=rng.random() < 0.3, note=rng.choice([None, 'cn'])))
         elif kind == 't.add_index':
@@ -128,7 +128,7 @@ def apply_edit(rng, db, hd, kind, counter):
                 f = rng.choice(['pk', 'unique'])
                 put(lambda: ix, f, not getattr(ix, f), 'index.' + f)
             else:
-                put(lambda: ix, 'name', rng.choice([None, fresh('ix')]), 'index.name')
+                put(lambda: ix, 'name', rng.choice([None, '', fresh('ix')]), 'index.name')
         return kind
     if kind.startswith('e.') and E:
         e = rng.choice(E)
@@ -151,7 +151,7 @@ def apply_edit(rng, db, hd, kind, counter):
         elif kind == 'r.inline':
             r.inline = not r._inline
         elif kind == 'r.name':
-            put(lambda: r, 'name', rng.choice([None, fresh('fk')]), 'reference.name')
+            put(lambda: r, 'name', rng.choice([None, '', fresh('fk')]), 'reference.name')
         elif kind == 'r.actions':
             put(lambda: r, 'on_update', rng.choice([None, 'cascade', 'set null']), 'reference.on_update')
             put(lambda: r, 'on_delete', rng.choice([None, 'restrict', 'no action']), 'reference.on_delete')
